@@ -421,6 +421,21 @@ def run(prop, report, tier, seed, replay=None):
                      f'{len(bad)} of {len(terms)} cases differ',
                      first_case=dict(case=case, observed=dict(outcome=obs['outcome'], exc=obs.get('exc'),
                                                               events=obs['events'][:80], batches=obs['batches'])))
+    # runs under the real serial backend, replayed by the serial strategy itself (no completion oracle; Model/Serial.v)
+    ser = [(case, obs) for case, obs in results if case.get('runner') == 'serial' and obs.get('outcome') != 'hang']
+    if ser:
+        try:
+            sbad = coq_failing(f'corr_{prop}_serial', S.SCHED_IMPORTS.replace('LT.Model.Sched', 'LT.Model.Sched LT.Model.Serial'),
+                               [S.emit_case(case, obs) for case, obs in ser], f'check_serial sched_params {spec["proj"]}')
+        except CoqError as e:
+            sbad = []
+            report.broke(f'correspondence Serial.check_serial could not be evaluated for {prop}', str(e))
+        if sbad:
+            case, obs = ser[sbad[0]]
+            report.broke(f'correspondence Model/Serial.v (oldest submitted task first, one per polling round) vs the serial backend on projection {prop}: '
+                         f'{len(sbad)} of {len(ser)} runs differ',
+                         first_case=dict(case=case, observed=dict(outcome=obs['outcome'], events=obs['events'][:80], batches=obs['batches'])))
+        dist['serial_strategy_runs_compared'] = len(ser)
     if prop == 'C03':
         # object layer: which task objects carry a result_meta after the run, against Model/ObjPlan.v
         okeep = [(case, obs) for case, obs in results if obs.get('outcome') in ('returned', 'laberror') and 'cls' in obs.get('objects', {})]
